@@ -1635,15 +1635,17 @@ def accumulate(flowdir, to_accumulate=None, nprint=100,
         max_accumulated_cells = flowdir.nrows * flowdir.ncols
     max_accumulated_cells = np.int64(max_accumulated_cells)
 
-    # Convert flowdir
-    flowdir.dtype = np.int64
+    # Convert flowdir (a copy, the grid of the caller is not retyped)
+    if flowdir.dtype != np.int64:
+        flowdir = flowdir.clone(np.int64)
 
     # Set accumulation field
     if to_accumulate is None:
         to_accumulate = flowdir.clone()
         to_accumulate.fill(1)
 
-    to_accumulate.dtype = np.float64
+    if to_accumulate.dtype != np.float64:
+        to_accumulate = to_accumulate.clone(np.float64)
 
     # Initiase the accumulation grid with 0 accumulation
     accumulation = to_accumulate.clone()
